@@ -304,8 +304,8 @@ class Gen:
             # mark classes are disjoint: GDEF has one MarkAttachClassDef, overlapping MarkAttachmentType classes are an error
             pool = list(marks)
             r.shuffle(pool)
-            for i in range(r.randint(0, 2)):
-                k = r.randint(1, 2)
+            for i in range(r.choice([0, 1, 2, 2])):
+                k = 1 if i == 0 else r.randint(1, 2)
                 part, pool = pool[:k], pool[k:]
                 if not part:
                     break
@@ -392,7 +392,14 @@ class Gen:
                     # the flag in force after a nested lookup block is not something the specification pins down:
                     # always restate it there
                     # (and a lookupflag statement that changes nothing may or may not start a new lookup: never emit one)
-                    if r.random() < 0.35 or cur_flag is None:
+                    force_twin = len(self.mark_classes) >= 2 and r.random() < 0.3
+                    if force_twin:
+                        f = {"ignore": [], "attach": None, "filter": None}
+                        f[r.choice(["filter", "attach"])] = r.choice(self.mark_classes)
+                        if f != cur_flag:
+                            body.append(["lookupflag", f])
+                            cur_flag = f
+                    elif r.random() < 0.35 or cur_flag is None:
                         f = self.flag()
                         if f != cur_flag:
                             body.append(["lookupflag", f])
@@ -400,6 +407,20 @@ class Gen:
                     l = self.lookup("_")
                     for rule in l["rules"]:
                         body.append(["rule", rule])
+                    # flag twins: the same kind of rules again under a lookupflag that differs only in *which* mark class it
+                    # names (UseMarkFilteringSet @A -> @B, MarkAttachmentType @A -> @B): a new lookup with its own filter
+                    which = "filter" if cur_flag and cur_flag.get("filter") else "attach" if cur_flag and cur_flag.get("attach") else None
+                    others = [c for c in self.mark_classes if which and c != cur_flag[which]]
+                    if others and (force_twin or r.random() < 0.6):
+                        f2 = dict(cur_flag)
+                        f2[which] = r.choice(others)
+                        t = l["rules"][0]["t"]
+                        twins = self.rules_of(t, r.randint(1, 2), True) if t not in MARK_TYPES else []
+                        if twins:
+                            body.append(["lookupflag", f2])
+                            cur_flag = f2
+                            for rule in twins:
+                                body.append(["rule", rule])
             self.prog["items"].append(["feature", tag, body])
         return self.prog
 
